@@ -28,6 +28,8 @@ def gen_response(rng, status, reason, nparts):
         name = rng.choice(["X-" + text.token(rng), "Server", "Cache-Control", "Vary", "Date-Unix-Epoch-Nanos", text.token(rng)])
         value = (text.printable(rng, 1, 30, weights=(8, 2, 1)).strip() or "v")
         headers.append((name, value))
+    if rng.chance(1, 12):
+        headers.insert(rng.below(len(headers) + 1), (rng.choice(["Content-Length", "content-length"]), rng.choice(["0", "4", "17", "999999", "abc", ""])))
     parts = []
     if nparts == 1:
         kind, body = gen_body(rng)
@@ -74,7 +76,8 @@ def compare(c, r, got, which, rp):
     if (got["status"], got["reason"], got["version"]) != (r["status"], r["reason"], "HTTP/1.1"):
         c.violation(tag + ":status-line", "status line came back as %r" % ((got["version"], got["status"], got["reason"]),), rp)
     mine = [h for h in got["headers"] if h[0].lower() not in FRAMING]
-    if mine != r["headers"]:
+    sent = [h for h in r["headers"] if h[0].lower() not in FRAMING]
+    if mine != sent:
         c.violation(tag + ":headers", "caller-supplied headers differ: sent %r got %r" % (r["headers"][:4], mine[:4]), rp)
     if len(got["parts"]) != len(r["parts"]):
         kinds = "+".join(sorted(set(p["kind"] for p in r["parts"])))
